@@ -5,7 +5,7 @@
    parse-twice agreement are decided on the real decoders by the harness, and follow for the
    modelled part because it is a function of the decoded value. *)
 From Verif Require Import Model.Base Model.Node Model.Graph Model.Spdx Model.Cdx Model.Ident
-  Proofs.GraphFacts Proofs.SpdxFacts Proofs.CdxFacts Proofs.IdentFacts Proofs.DecFacts.
+  Proofs.GraphFacts Proofs.SetLaws Proofs.SpdxFacts Proofs.CdxFacts Proofs.IdentFacts Proofs.DecFacts Proofs.CdxCount.
 Open Scope list_scope.
 
 (* CycloneDX: every BOM value (any nesting, repeated or absent references, absent metadata
@@ -28,6 +28,18 @@ Print Assumptions C05_cdx_identifiers_origin.
 Theorem C05_generated_identifiers_distinct : forall a b, 0 < a -> 0 < b -> auto_id a = auto_id b -> a = b.
 Proof. exact auto_id_inj. Qed.
 Print Assumptions C05_generated_identifiers_distinct.
+
+(* no component is lost: the parsed identifiers are exactly the components' references and generated
+   identifiers in traversal order (bcids, the counter made explicit), and when those are pairwise
+   distinct there is one node per component *)
+Theorem C05_cdx_identifiers_are_the_components : forall b,
+  (forall i, In i (ids (cdx_unser_nl b)) <-> In i (bcids b)) /\ length (bcids b) = bsize b.
+Proof. exact cdx_unser_cids. Qed.
+Print Assumptions C05_cdx_identifiers_are_the_components.
+
+Theorem C05_cdx_one_node_per_component : forall b, NoDup (bcids b) -> length (nl_nodes (cdx_unser_nl b)) = bsize b.
+Proof. exact cdx_unser_node_count. Qed.
+Print Assumptions C05_cdx_one_node_per_component.
 
 (* SPDX: identifiers and endpoints are transferred verbatim; the graph is closed whenever the
    input's own references resolve, identifiers are as unique as the input's *)
@@ -75,5 +87,6 @@ Example C05_example :
   let b := {| b_serial := "s"; b_version := 1; b_has_metadata := true; b_meta_comp := Some (cx "root" []);
               b_lifecycles := []; b_components := [cx "a" [cx "a" []; cx "" [cx "b" []]]; cx "b" []]; b_deps := [] |} in
   ids (cdx_unser_nl b) = ["root"; "a"; "protobom-auto--000000004"; "b"] /\
+  bcids b = ["root"; "a"; "a"; "protobom-auto--000000004"; "b"; "b"] /\
   new_id "U" ["auto"; "a b/c"; "é"] = "protobom-auto--a-b-c-C195C169" /\ usable ["auto"; ""] = false.
 Proof. vm_compute. repeat split. Qed.
